@@ -272,6 +272,36 @@ Theorem c05_cpp_is_service_type_exact : forall p svc, exported_flag TgtCpp n_cpp
 Proof. exact cpp_is_service_type_exact. Qed.
 Print Assumptions c05_cpp_is_service_type_exact.
 
+(* the Python SERVICE class and the C++ service wrapper (the two ServiceType.j2 templates) *)
+Theorem c05_exported_svc_port_exact : forall p, exported_port_k TgtPy KSvcPortId p = Some p.
+Proof. exact exported_svc_port_exact. Qed.
+Print Assumptions c05_exported_svc_port_exact.
+
+Theorem c05_cpp_service_wrapper_traits_exact : forall p svc,
+  exported_flag TgtCpp (n_cpp_svc n_cpp_is_service_type) p svc = Some true /\
+  exported_flag TgtCpp (n_cpp_svc n_IsService) p svc = Some true /\
+  exported_flag TgtCpp (n_cpp_svc n_IsRequest) p svc = Some false /\
+  exported_flag TgtCpp (n_cpp_svc n_IsResponse) p svc = Some false.
+Proof. exact cpp_service_wrapper_traits_exact. Qed.
+Print Assumptions c05_cpp_service_wrapper_traits_exact.
+
+(* the flat macro namespace of a C header (finding F-C-MACRO-CLASH): `c_header consts fields` is the ORDERED list of the #defines of a
+   type with those constant names and array field names (expanded from the scanned `exported_names`); what a user reads is the LAST
+   definition.  REFUTED in general: a constant called EXTENT_BYTES_ replaces the exported extent.  PARTIAL: when the macro names of the
+   type are pairwise distinct (`c_macros_distinct`, evaluated by the check on every generated type) every name resolves to the
+   definition the model attributes to it, so all c05_exported_* statements speak about what the compiled header delivers *)
+Theorem c05_c_header_effective_refuted : exists consts fields,
+  c_macros_distinct consts fields = false /\
+  In ([95; 69; 88; 84; 69; 78; 84; 95; 66; 89; 84; 69; 83; 95]%N, SrcRow RExtentBytes) (c_header consts fields) /\
+  last_def (c_header consts fields) [95; 69; 88; 84; 69; 78; 84; 95; 66; 89; 84; 69; 83; 95]%N = Some (SrcConstant [69; 88; 84; 69; 78; 84; 95; 66; 89; 84; 69; 83; 95]%N).
+Proof. exact c_header_effective_refuted. Qed.
+Print Assumptions c05_c_header_effective_refuted.
+
+Theorem c05_c_header_effective_partial : forall consts fields, c_macros_distinct consts fields = true ->
+  forall nm src, In (nm, src) (c_header consts fields) -> last_def (c_header consts fields) nm = Some src.
+Proof. exact c_header_effective_partial. Qed.
+Print Assumptions c05_c_header_effective_partial.
+
 (* float32 / float16 constants: the double rounding RN32(RN64 q) can be exactly one binary32 ulp off (worst case exhibited; the upper
    bound of one ulp is argued and checked at run time, NOT proved) *)
 Theorem c05_float32_double_rounding_worst_case : exists a b, 0 < b /\
